@@ -53,7 +53,8 @@ def plan(prop, tier):
                 gram(prop, "mini-asan", "c-asan", "mini", 4, ["--tm", "full", "--fresh"] + fl)]
         if not q:
             jobs += [gram(prop, "q-full", "c", "q", 4, ["--tm", "full"] + fl),
-                     gram(prop, "t1-vary", "c", "t1", 5, ["--tm", "vary"] + fl),
+                     gram(prop, "q3-vary6", "c", "q3", 6, ["--tm", "vary"] + fl),
+                     gram(prop, "t1-u0", "c", "t1", 5, ["--tm", "u0"] + fl),
                      gram(prop, "t2-u0", "c", "t2", 5, ["--tm", "u0"] + fl)]
         nt = {"C02": "c02_cases", "C03": "c03_cases_ambiguous", "C05": "c05_cases_ambiguous"}[prop]
         P = dict(base, jobs=jobs, nontrivial_key=nt,
@@ -67,7 +68,7 @@ def plan(prop, tier):
                 gram(prop, "cur", "c", "cur", 5 if q else 7, ["--cost", "0,1", "--ams", "0,1", "--rec", "1"], shards=NPROC),
                 gram(prop, "mini-asan", "c-asan", "mini", 4, ["--tm", "vary", "--fresh", "--cost", "0,1", "--rec", "1", "--cms", "1,3", "--ams", "0,1"])]
         if not q:
-            jobs += [gram(prop, "q-vary-full", "c", "q", 4, ["--tm", "vary"] + full),
+            jobs += [gram(prop, "q-vary-cms", "c", "q", 4, ["--tm", "vary", "--cost", "1", "--rec", "1", "--cms", "0,1,2,3,4", "--ams", "0"]),
                      gram(prop, "t1-u0", "c", "t1", 5, ["--tm", "u0", "--cost", "1", "--rec", "1", "--cms", "1,3"]),
                      gram(prop, "q-full", "c", "q", 4, ["--tm", "full", "--cost", "1", "--rec", "1", "--cms", "1"])]
         P = dict(base, jobs=jobs, nontrivial_key="c04_cases_pruning_needed",
